@@ -528,6 +528,7 @@ func (ex *Exec) indexAddr(fr *Frame, x *ssa.IndexAddr) Val {
 	ts := ex.ts
 	base := ex.reg(fr, x.X)
 	i := ex.toIdx(ex.reg(fr, x.Index), x.Index.Type())
+	ex.addHint(i)
 	switch b := base.(type) {
 	case SliceV:
 		ex.oblige("index", ex.siteOf(x, ""), x.Pos(), "index within slice length", ex.inBounds(i, b.Len))
